@@ -363,6 +363,35 @@ func c11Judge(r *vlib.Run, cfg c11Config, ing *bulk.Ingestor, cap *capture, m se
 		if ok {
 			r.Distinct("nontrivial", vlib.JSON(cfg)+"|"+v+"|"+query)
 		}
+		// the same query text in the legacy query language (the default language of a store), for the two spellings
+		// both languages share: the double-quoted literal (escapes \" \\ \*) and the bare word
+		if st := styleOf(query); st == "double" || st == "bare" || kind == "exists" {
+			r.Add("evaluations", 1)
+			r.Add("legacy_queries", 1)
+			var root *parser.ASTNode
+			var lerr error
+			if p := vlib.Catch(func() { root, lerr = parser.ParseQuery(query, m) }); p != nil {
+				r.Violation(fmt.Sprintf("legacy %s query panics cfg=%s", kind, vlib.JSON(cfg)), c, fmt.Sprintf("value %q query %q: %v", v, query, p))
+				return
+			}
+			if lerr != nil {
+				if must {
+					r.Violation(fmt.Sprintf("legacy %s query rejected style=%s class=%s err=%s", kind, st, valueClass(v), lerr.Error()[:min(40, len(lerr.Error()))]), c, fmt.Sprintf("cfg %s value %q query %q tokens %q: %v", vlib.JSON(cfg), v, query, toks, lerr))
+				}
+				return
+			}
+			lok, eerr := evalAST(root, toks)
+			if eerr != nil {
+				return
+			}
+			if !lok && must {
+				cls := valueClass(v)
+				if strings.Contains(cls, "invalid-utf8") {
+					cls = "invalid-utf8"
+				}
+				r.Violation(fmt.Sprintf("legacy %s not-found case_sensitive=%v partial=%v class=%s", kind, cfg.CaseSens, cfg.Partial, cls), c, fmt.Sprintf("cfg %s value %q query %q AST %s emitted tokens %q", vlib.JSON(cfg), v, query, root.String(), toks))
+			}
+		}
 	}
 	for _, ft := range fields {
 		parts := strings.SplitN(ft, "@", 2)
